@@ -327,12 +327,24 @@ impl Ast {
             Ast::Literal(ref value) => fmt::Display::fmt(value, formatter),
             Ast::Column(ref name) => formatter.write_str(name.as_str()),
             Ast::UnOp(op, ref arg) => {
+                // NOT binds more loosely than the comparison, bitwise and
+                // arithmetic operators (but more tightly than AND and OR), so
+                // it needs parentheses when it is an operand of those.
+                let needs_parens =
+                    matches!(op, UnOp::BoolNot) && parent_prec > 2;
+                if needs_parens {
+                    formatter.write_str("(")?;
+                }
                 match op {
                     UnOp::Neg => formatter.write_str("-")?,
                     UnOp::BitNot => formatter.write_str("~")?,
                     UnOp::BoolNot => formatter.write_str("NOT ")?,
                 }
-                arg.format_with_precedence(formatter, 10)
+                arg.format_with_precedence(formatter, 10)?;
+                if needs_parens {
+                    formatter.write_str(")")?;
+                }
+                Ok(())
             }
             Ast::BinOp(op, ref arg1, ref arg2) => {
                 let op_prec = op.precedence();
